@@ -59,6 +59,17 @@ def perturbations(spec0, steps):
                         yield repl(m3, 'field-name-other')
                         break
         if kind == 'AddField':
+            # the field type replaced by a subclass of it (the residual
+            # difference is the type alone)
+            for sub in {'Int': ['PosInt', 'BigInt'], 'FK': ['O2O'],
+                        'Char': ['Text']}.get(mj[3], []):
+                m5 = list(mj)
+                m5[3] = sub
+                if sub == 'Text':
+                    m5[4] = {k: v for k, v in mj[4].items()
+                             if k != 'max_length'}
+                yield repl(m5, 'field-type-' + (
+                    'subclass' if sub != 'Text' else 'other'))
             m = S.get_model(spec0, label, mj[1])
             if m and m['fields']:
                 m2 = list(mj)
